@@ -489,3 +489,44 @@ Fixpoint ser_h2 (l : list item) (jar : list header) : list header :=
   end.
 
 Definition h2_filter (hs : list header) : list header := flat_map h2_header hs.
+
+(* ------------------------------------------------------------------ *)
+(** * Per-frontend response edits (HSTS included): [mux/shared.rs]
+      [apply_response_header_edits], run at the emission boundary *)
+
+Inductive emode := MAppend | MSetIfAbsent | MSet.
+Record edit := mkedit { e_mode : emode; e_key : list N; e_val : list N }.
+
+Definition is_empty {A} (l : list A) : bool := match l with [] => true | _ => false end.
+
+(** edits that delete every existing field of that name first *)
+Definition edit_drops (e : edit) : bool :=
+  match e_mode e with
+  | MSet => true
+  | MAppend => is_empty (e_val e)
+  | MSetIfAbsent => false
+  end.
+
+Definition named (k : list N) (h : header) : bool := beq (lower_name (fst h)) (lower_name k).
+
+Definition edit_inserts (existing : list header) (e : edit) : list header :=
+  match e_mode e with
+  | MAppend => if is_empty (e_val e) then [] else [(e_key e, e_val e)]
+  | MSetIfAbsent => if existsb (named (e_key e)) existing then [] else [(e_key e, e_val e)]
+  | MSet => [(e_key e, e_val e)]
+  end.
+
+Definition apply_edits (es : list edit) (hs : list header) : list header :=
+  filter (fun h => negb (existsb (fun e => edit_drops e && named (e_key e) h) es)) hs ++
+  flat_map (edit_inserts hs) es.
+
+(** the same on blocks: inserted before the end-of-headers flag, i.e. after every header block *)
+Definition apply_edits_items (es : list edit) (l : list item) : list item :=
+  match es with
+  | [] => l
+  | _ =>
+    filter (fun i => match i with
+                     | IH h => negb (existsb (fun e => edit_drops e && named (e_key e) h) es)
+                     | ICookies => true end) l ++
+    map IH (flat_map (edit_inserts (headers_of l)) es)
+  end.
